@@ -27,6 +27,20 @@ SEEDS = {
              needs="exp in (now-l-1s, now-l) or nbf in (now+l, now+l+1s), e.g. now-l-1ns", caught_by=["C11 quick (boundary offsets leeway+-1ns against the i128 evaluator, validator and end-to-end)"], missed_by_initially=[]),
  "C12": dict(property="C12", summary="paseto-v4-sodium local unseal drops the minimum-length check and splits the tag with saturating_sub; libsodium's compare() over a zero-length tag reports equal: a 32-byte body authenticates under any key and reaches decoder and validator",
              needs="a v4.local token truncated to exactly 32 bytes on the libsodium back end", caught_by=["C12 quick (every truncation length with the recording decoder/validator)", "C02 (truncate-back mutant accepted)"], missed_by_initially=[]),
+ "C13": dict(property="C13", summary="KeyId::from_str replaces the 'decoded length == 33' check by a ceiling-division block count: id bodies of 42/43 characters (31/32 bytes) are accepted, zero-extended, and re-serialise differently",
+             needs="an id body exactly one or two bytes short", caught_by=["C13 quick (c13.idstrings: id bodies of 30..36 bytes)", "C09 quick"], missed_by_initially=[]),
+ "C14": dict(property="C14", summary="the nbf duplicate guard in the RegisteredClaims visitor tests the iat slot: objects with iat before nbf are rejected, duplicate nbf accepted",
+             needs="a JSON object whose member order differs from the library's own (iat before nbf)", caught_by=["C14 quick (c14.claims-text: generated member orders; rejects-valid-object)"], missed_by_initially=[]),
+ "C15": dict(property="C15", summary="pre_auth_encode joins multi-fragment pieces in a 64-byte stack buffer (zip truncates) while the length prefix stays the full sum",
+             needs="a piece given as >= 2 fragments totalling more than 64 bytes (the library only fragments the short header)", caught_by=["C15 quick (fragment lengths 0..600 x 0..4 fragments)"], missed_by_initially=[]),
+ "C16": dict(property="C16", summary="paseto-v4 pw_wrap_key folds the two draws with Result::or: if exactly one of salt/nonce draws fails the error is swallowed and an all-zero salt or nonce is used",
+             needs="an RNG failure at exactly one of the two draw indices of one password-wrap call (a persistently failing RNG is still reported)", caught_by=["C16 quick (c16.faults: every draw index x fill)"], missed_by_initially=[]),
+ "C17": dict(property="C17", summary="paseto-v3-aws-lc VerifyingKey::from_point checks ERR_peek_error() instead of the setters' return codes: after any failed aws-lc operation on the same thread, clone()/public_key()/seal_key panic",
+             needs="a failed operation (rejected token) followed by a clone / public_key() on the same thread without an intervening error-queue clear", caught_by=["C17 quick (plans mixing failing verifies with CloneUse/CloneDrop/PublicKey; catch_unwind per op)"], missed_by_initially=[]),
+ "C18": dict(property="C18", summary="paseto-core gains serde Serialize/Deserialize for every Key<V,K> (feature serde), delegating to expose_key(): secret and local keys can be serialised without the explicit expose call",
+             needs="a program handing a secret/local key to a serde serializer (Display/Debug probes alone do not see it)", caught_by=["C18 quick (catalogue class key-serde)"], missed_by_initially=[]),
+ "C19": dict(property="C19", summary="paseto-v1 pie_wrap uses Mac::finalize_reset, which needs hmac's `reset` feature that only the pke feature enables",
+             needs="a paseto-v1 feature selection containing pie-wrap but not pke", caught_by=["C19 quick (all 45 closures of paseto-v1 are checked)"], missed_by_initially=[]),
 }
 for sid, m in SEEDS.items():
     d = f"/verif/seeded/{sid}"
